@@ -23,7 +23,7 @@ use crate::{
     util::StaticArena,
 };
 
-const RULE: &str = "sequential lane: 3-40 operations (get_or_create / get / delete / retain by predicate / clear / visit / get_*_handles / bulk creation of up to 300 keys to force shard collisions and table growth) over a pool of keys that includes equal keys built through different construction paths and label orders, on a registry whose storage counts constructions; a reference map (kind, canonical key) -> storage identity predicts every result. Non-trivial = an equal-but-differently-built key hits an existing entry, or a deleted key is created again. Concurrent lane: 2-3 threads x 1-3 operations on <= 2 keys of one kind under a generated schedule (hook between read-unlock and write-lock); oracle = brute-force linearizability against the sequential map; non-trivial = two creators of one key overlap. Stress lane: 16 free-running threads get_or_create+increment shared keys. Process lane: the sequential lane under CPU affinity masks giving 1/2/4/16 shards. Distinct = distinct decoded (case, schedule).";
+const RULE: &str = "sequential lane: 3-40 operations (get_or_create / get / delete / retain by predicate / clear / visit / get_*_handles / bulk creation of up to 300 keys to force shard collisions and table growth) over a pool of keys that includes equal keys built through different construction paths and label orders, on a registry whose storage counts constructions; a reference map (kind, canonical key) -> storage identity predicts every result. Non-trivial = an equal-but-differently-built key hits an existing entry, or a deleted key is created again. Concurrent lane: 2-3 threads x 1-3 operations on <= 2 keys of one kind under a generated schedule (hook between read-unlock and write-lock); oracle = brute-force linearizability against the sequential map; non-trivial = two creators of one key overlap. Custom-key lane: the same operations on a Registry<DefaultHashable<K>> whose key type has only two hash values for 2-7 unequal keys (non-trivial = a new key collides with a live key of its kind). Stress lane: 16 free-running threads get_or_create+increment shared keys. Process lane: the sequential lane under CPU affinity masks giving 1/2/4/16 shards. Distinct = distinct decoded (case, schedule).";
 
 // ---- storage that counts constructions and gives every storage an identity
 #[derive(Debug)]
@@ -292,6 +292,157 @@ fn run_sequential(case: &Case, ctx: &mut Ctx) -> Result<(), Fail> {
     Ok(())
 }
 
+// ---------------------------------------------------------------- custom key type with colliding hashes
+//
+// The registry is generic over its key: anything `Eq + Hashable`. A key type whose hash is coarser than
+// its equality (legal Rust) makes unequal keys meet in one hash bucket, so every place that decides
+// "same key" by the hash alone shows up as two keys sharing a storage.
+
+#[derive(Debug, Clone, PartialEq, Eq)]
+pub struct CoarseKey {
+    id: u8,
+    pad: String,
+}
+impl std::hash::Hash for CoarseKey {
+    fn hash<H: std::hash::Hasher>(&self, h: &mut H) {
+        h.write_u8(self.id & 1); // two hash values for the whole key space
+    }
+}
+type CKey = metrics_util::DefaultHashable<CoarseKey>;
+
+#[derive(Default, Clone)]
+pub struct CoarseStorage(Arc<AtomicU64>, Arc<Mutex<Vec<(u8, u8)>>>);
+impl CoarseStorage {
+    fn mk(&self, kind: u8, key: &CKey) -> Arc<Slot> {
+        self.1.lock().unwrap().push((kind, key.0.id));
+        Arc::new(Slot { id: self.0.fetch_add(1, Ordering::SeqCst) + 1, value: AtomicU64::new(0) })
+    }
+}
+impl Storage<CKey> for CoarseStorage {
+    type Counter = Arc<Slot>;
+    type Gauge = Arc<Slot>;
+    type Histogram = Arc<Slot>;
+    fn counter(&self, key: &CKey) -> Arc<Slot> {
+        self.mk(0, key)
+    }
+    fn gauge(&self, key: &CKey) -> Arc<Slot> {
+        self.mk(1, key)
+    }
+    fn histogram(&self, key: &CKey) -> Arc<Slot> {
+        self.mk(2, key)
+    }
+}
+
+#[derive(Debug)]
+enum KOp {
+    GetOrCreate(u8, u8),
+    Get(u8, u8),
+    Delete(u8, u8),
+    RetainBelow(u8, u8),
+    Clear,
+    Visit(u8),
+    Handles(u8),
+}
+
+pub fn case_custom_key(bytes: &[u8], _s: &[u8], ctx: &mut Ctx) -> Result<(), Fail> {
+    let mut src = Source::new(bytes);
+    let nk = 2 + src.below(6) as u8;
+    let n = 3 + src.below(38);
+    let ops: Vec<KOp> = (0..n)
+        .map(|_| {
+            let kind = src.below(3) as u8;
+            let k = src.below(nk as usize) as u8;
+            match src.below(12) {
+                0..=4 => KOp::GetOrCreate(kind, k),
+                5 | 6 => KOp::Get(kind, k),
+                7 | 8 => KOp::Delete(kind, k),
+                9 => {
+                    if src.chance(80) {
+                        KOp::Clear
+                    } else {
+                        KOp::RetainBelow(kind, k)
+                    }
+                }
+                10 => KOp::Visit(kind),
+                _ => KOp::Handles(kind),
+            }
+        })
+        .collect();
+    ctx.case(&(nk, &ops));
+    let storage = CoarseStorage::default();
+    let built = storage.1.clone();
+    let registry: Registry<CKey, CoarseStorage> = Registry::new(storage);
+    let mk = |id: u8| metrics_util::DefaultHashable(CoarseKey { id, pad: format!("key-{}", id) });
+    let mut model: HashMap<(u8, u8), u64> = HashMap::new();
+    let mut all_ids: BTreeSet<u64> = BTreeSet::new();
+    for (si, op) in ops.iter().enumerate() {
+        match op {
+            KOp::GetOrCreate(kind, k) => {
+                let key = mk(*k);
+                let before = built.lock().unwrap().len();
+                let got: Arc<Slot> = by_kind!(*kind, registry, get_or_create_counter, get_or_create_gauge, get_or_create_histogram, &key, |s| s.clone());
+                let constructed = built.lock().unwrap().len() - before;
+                match model.get(&(*kind, *k)) {
+                    Some(id) => {
+                        ensure!(got.id == *id, "equal-key-got-different-storage", "step {}: get_or_create(kind {}, key {}) returned storage #{} but #{} is registered for that key", si, kind, k, got.id, id);
+                        ensure!(constructed == 0, "storage-constructed-for-existing-key", "step {}: a storage was constructed although the key exists", si);
+                    }
+                    None => {
+                        ensure!(!all_ids.contains(&got.id), "different-keys-share-storage", "step {}: creating (kind {}, key {}) returned storage #{}, which belongs to another key (the two keys are unequal but hash alike)", si, kind, k, got.id);
+                        ensure!(constructed == 1, "construction-count-wrong", "step {}: creating a key constructed {} storages", si, constructed);
+                        if model.keys().any(|(mk2, k2)| mk2 == kind && (k2 & 1) == (k & 1)) {
+                            ctx.nontrivial("new-key-collides-with-live-key-of-its-kind");
+                        }
+                        all_ids.insert(got.id);
+                        model.insert((*kind, *k), got.id);
+                    }
+                }
+            }
+            KOp::Get(kind, k) => {
+                let got: Option<Arc<Slot>> = by_kind!(*kind, registry, get_counter, get_gauge, get_histogram, &mk(*k));
+                ensure!(got.as_ref().map(|s| s.id) == model.get(&(*kind, *k)).copied(), "get-wrong", "step {}: get(kind {}, key {}) returned {:?}, model says {:?}", si, kind, k, got.map(|s| s.id), model.get(&(*kind, *k)));
+            }
+            KOp::Delete(kind, k) => {
+                let got: bool = by_kind!(*kind, registry, delete_counter, delete_gauge, delete_histogram, &mk(*k));
+                let want = model.remove(&(*kind, *k)).is_some();
+                ensure!(got == want, "delete-reported-wrongly", "step {}: delete(kind {}, key {}) returned {} but the key {}", si, kind, k, got, if want { "existed" } else { "did not exist" });
+            }
+            KOp::RetainBelow(kind, lim) => {
+                let pred = |k: &CKey, _: &Arc<Slot>| k.0.id < *lim;
+                by_kind!(*kind, registry, retain_counters, retain_gauges, retain_histograms, pred);
+                model.retain(|(mk2, k), _| mk2 != kind || k < lim);
+            }
+            KOp::Clear => {
+                registry.clear();
+                model.clear();
+            }
+            KOp::Visit(kind) => {
+                let mut seen: Vec<(u8, u64)> = vec![];
+                let f = |k: &CKey, s: &Arc<Slot>| seen.push((k.0.id, s.id));
+                by_kind!(*kind, registry, visit_counters, visit_gauges, visit_histograms, f);
+                let mut want: Vec<(u8, u64)> = model.iter().filter(|((mk2, _), _)| mk2 == kind).map(|((_, k), id)| (*k, *id)).collect();
+                seen.sort();
+                want.sort();
+                ensure!(seen == want, "visit-differs-from-live-keys", "step {}: visit of kind {} reported {:?}, live are {:?}", si, kind, seen, want);
+            }
+            KOp::Handles(kind) => {
+                let h = by_kind!(*kind, registry, get_counter_handles, get_gauge_handles, get_histogram_handles,);
+                let mut seen: Vec<(u8, u64)> = h.iter().map(|(k, s)| (k.0.id, s.id)).collect();
+                let mut want: Vec<(u8, u64)> = model.iter().filter(|((mk2, _), _)| mk2 == kind).map(|((_, k), id)| (*k, *id)).collect();
+                seen.sort();
+                want.sort();
+                ensure!(seen == want, "handles-differ-from-live-keys", "step {}: handle listing of kind {} is {:?}, live are {:?}", si, kind, seen, want);
+            }
+        }
+    }
+    for kind in 0..3u8 {
+        let h = by_kind!(kind, registry, get_counter_handles, get_gauge_handles, get_histogram_handles,);
+        let want = model.iter().filter(|((mk2, _), _)| *mk2 == kind).count();
+        ensure!(h.len() == want, "handles-differ-from-live-keys", "final listing of kind {} has {} entries, {} are live", kind, h.len(), want);
+    }
+    Ok(())
+}
+
 pub fn case_seq(bytes: &[u8], _s: &[u8], ctx: &mut Ctx) -> Result<(), Fail> {
     let mut src = Source::new(bytes);
     let case = decode(&mut src);
@@ -521,6 +672,7 @@ pub fn run(cfg: &RunCfg, replay: Option<&str>) -> i32 {
     let mut pr = PropRun::new("C06", cfg, RULE);
     pr.register("sequential", &case_seq);
     pr.register("concurrent", &case_conc);
+    pr.register("custom-key-colliding-hashes", &case_custom_key);
     let child_replay = |b: &[u8], _s: &[u8], ctx: &mut Ctx| -> Result<(), Fail> {
         ctx.case(&("child process", b));
         crate::engine::child::replay_child("C06", b)
@@ -537,6 +689,8 @@ pub fn run(cfg: &RunCfg, replay: Option<&str>) -> i32 {
     let r = run_lane(&c, "C06", &Lane { name: "sequential", cases: c.cases(200_000, 6_000_000), max_len: 200, sched_len: 0, workers: 0, f: &case_seq });
     pr.push(r);
     let r = run_lane(&c, "C06", &Lane { name: "concurrent", cases: c.cases(400_000, 10_000_000), max_len: 24, sched_len: 48, workers: 0, f: &case_conc });
+    pr.push(r);
+    let r = run_lane(&c, "C06", &Lane { name: "custom-key-colliding-hashes", cases: c.cases(300_000, 8_000_000), max_len: 140, sched_len: 0, workers: 0, f: &case_custom_key });
     pr.push(r);
     let r = stress(&pr);
     pr.push(r);
